@@ -1,6 +1,9 @@
 package aescbcaead
 
 import (
+	"crypto/hmac"
+	"crypto/sha256"
+
 	"github.com/dapr/kit/zzverif"
 	"github.com/dapr/kit/zzverifstubs"
 )
@@ -55,6 +58,14 @@ func VerifCBCAEADReadOnly() {
 	if zzverif.Bool("open") {
 		l := []int{0, 15, 16, 17, 32, 33, 48}[zzverif.Choose("ct_len", 7)]
 		ct := vArg(msgBuf, "ct", l)
+		if !zzverif.Symbolic() && l >= 16 {
+			// native replay: the solver's tag is authentic only under the idealised MAC; put the real one in place (as a
+			// peer who knows the key would) before the snapshot the comparison is made against
+			impl := a.(*aesCBCAEAD)
+			tag := impl.hmacTag(hmac.New(sha256.New, impl.macKey), aad, nonce, ct[:l-16], 16)
+			copy(ct[l-16:], tag)
+			oMsg = append([]byte(nil), msgBuf...)
+		}
 		_, _ = a.Open(dst, nonce, ct, aad)
 	} else {
 		l := []int{0, 1, 15, 16, 17, 32}[zzverif.Choose("pt_len", 6)]
